@@ -37,7 +37,8 @@ def gen_case(seed, tier, prop="C18"):
         msgs = []
         for _ in range(rng.randint(0, 6 if big else 4)):
             msgs.append(rng.choice([1, 1, 2, 5, 17, 100, 300, 1000, 5000] if big else [1, 2, 5, 17, 100, 300, 1000]))
-        return {"kind": rng.choice(["tcp", "unix"]),
+        return {"kind": rng.choice(["tcp", "tcp_accepted", "unix"]),
+                "rtimeout": [rng.choice([None, None, None, 0, 0.0625]) for _ in range(3)],
                 "msgs": msgs,
                 "wpause": [rng.choice([0, 0, 0, 0.125]) for _ in range(3)],
                 "end": rng.choice(["eof", "eof", "close", "eof_close"]),
@@ -96,7 +97,8 @@ class SockRun:
         tr = selector_events._SelectorSocketTransport(loop, sock, proto)
         await sleep(0)
         await sleep(0)
-        tr.pause_reading()
+        if kind == "tcp":
+            tr.pause_reading()      # like connect_tcp(); accepted streams (TCPListener.accept) start reading at once
         return A.SocketStream(tr, proto), tr, proto
 
     async def main(self):
@@ -163,17 +165,20 @@ class SockRun:
             cfg = e["cfg"]
             st = e["stream"]
             k = 0
+            retry = False
             try:
                 while True:
-                    p = cfg["rpause"][k % len(cfg["rpause"])]
+                    p = 0 if retry else cfg["rpause"][k % len(cfg["rpause"])]
                     if p:
                         await sleep(p)
                     m = cfg["recv_sizes"][k % len(cfg["recv_sizes"])]
                     k += 1
                     e["in_receive"] = loop.iterations
                     busy = False
+                    d = None
                     try:
-                        d = await st.receive(m)
+                        with anyio.move_on_after(None if retry else cfg["rtimeout"][k % len(cfg["rtimeout"])]) as rsc:
+                            d = await st.receive(m)
                     except BusyResourceError:
                         # the probing task got there first: this caller is the second user and is refused
                         busy = True
@@ -187,6 +192,14 @@ class SockRun:
                             else:
                                 self.bump("reader_released_by_local_close")
                                 self.nontrivial = True
+                    if d is None and not busy:
+                        # the receive was cancelled by its deadline: nothing may be lost, just try again
+                        self.faults["cancel_receive"] += 1
+                        self.nontrivial = True
+                        retry = True
+                        k -= 1
+                        continue
+                    retry = False
                     if busy:
                         self.bump("busy_refused")
                         self.nontrivial = True
@@ -383,7 +396,7 @@ class SockCheck:
         "asyncio's selector transport is used as is; only the socket object underneath is simulated",
         "a locally closed stream must release its own blocked reader within %d loop cycles" % CLOSE_LAT,
     ]
-    fault_kinds = ["short_read", "short_write", "partial_write", "eagain", "in_flight_delay", "fd_order", "timer_tie"]
+    fault_kinds = ["cancel_receive", "short_read", "short_write", "partial_write", "eagain", "in_flight_delay", "fd_order", "timer_tie"]
     budgets = {"quick": (60000, 100), "thorough": (2_500_000, 1500)}
     rule_text = ("cases = {tcp-like, unix-like}^2 x kernel buffer sizes 1..4096 per direction x per side: 0-4/6 messages of "
                  "1..1000/5000 bytes with pauses, end by send_eof / close / both, receive sizes 1/3/11/100/65536 with reader pauses up "
